@@ -76,11 +76,15 @@ fn count_occ<const N: usize, const M: usize>(t: &[u8; N], p: &[u8; M], from: usi
 /// sentinel suffixes are broken by what follows / by reaching the end first.
 #[cfg(kani)]
 pub fn backward_search<const N: usize, const M: usize, const MULTI: bool>() {
-    let mut t = bytes_from::<N>(b"AC");
+    backward_search_over::<N, M, MULTI>(b"AC")
+}
+#[cfg(kani)]
+pub fn backward_search_over<const N: usize, const M: usize, const MULTI: bool>(alpha: &[u8]) {
+    let mut t = bytes_from::<N>(alpha);
     t[N - 1] = b'$';
     if MULTI {
         let s: usize = kani::any();
-        kani::assume(s + 1 < N);
+        kani::assume(s < N - 1);
         t[s] = b'$';
     }
     let sa = assumed_sa(&t);
@@ -92,7 +96,7 @@ pub fn backward_search<const N: usize, const M: usize, const MULTI: bool>() {
         r += 1;
     }
     let fm = ExactFM::<N> { b, bv: b.to_vec() };
-    let p = bytes_from::<M>(b"AC");
+    let p = bytes_from::<M>(alpha);
     let res = fm.backward_search(p.iter());
     // l* = length of the longest pattern suffix that occurs
     let mut longest = 0;
@@ -119,8 +123,12 @@ pub fn backward_search<const N: usize, const M: usize, const MULTI: bool>() {
             assert!(longest == 0, "C05: Absent reported although the last symbol occurs");
         }
     }
-    kani::cover!(longest == M && count_occ(&t, &p, 0) >= 2, "pattern occurs at least twice");
-    kani::cover!(longest > 0 && longest < M, "partial match");
+    if M < N {
+        kani::cover!(longest == M && count_occ(&t, &p, 0) >= 2, "pattern occurs at least twice");
+    }
+    if M > 1 {
+        kani::cover!(longest > 0 && longest < M, "partial match");
+    }
     kani::cover!(longest == 0, "absent");
     core::mem::forget(fm);
 }
@@ -146,3 +154,9 @@ inst!(c05_bs_n6_m3, 9, backward_search::<6, 3, false>());
 inst!(c05_bs_n5_m2_multi, 8, backward_search::<5, 2, true>());
 inst!(c05_bs_n6_m3_multi, 9, backward_search::<6, 3, true>());
 inst!(c05_bs_n3_m4, 8, backward_search::<3, 4, false>());
+inst!(c05_bs_n7_m3, 10, backward_search::<7, 3, false>());
+inst!(c05_bs_n8_m3, 11, backward_search::<8, 3, false>());
+inst!(c05_bs_n8_m4_multi, 11, backward_search::<8, 4, true>());
+inst!(c05_bs_n6_m3_acg, 9, backward_search_over::<6, 3, false>(b"ACG"));
+inst!(c05_bs_n7_m2_acgt_multi, 10, backward_search_over::<7, 2, true>(b"ACGT"));
+inst!(c05_bs_n10_m4, 13, backward_search::<10, 4, false>());
